@@ -69,6 +69,28 @@ Theorem C12_monitor_sound : forall (veqb : V -> V -> bool), (forall a b, veqb a 
   forall installs log, reads_ok veqb installs log = true -> reads_spec installs log.
 Proof. exact (@monitor_sound V). Qed.
 
+(* WATCHERS.  applyUpdates notifies the watchers of a name while it holds the store lock.  In the
+   model `notify` is a total function of the state - there is nothing it could wait for - and a
+   pending notification absorbs further ones: so a poll's locked step is enabled whatever the
+   watchers' owners do (never drain, drain rarely), and with it every later handle call, Secret,
+   LookupSecret, Refresh and Close (C12_read_enabled quantifies over such runs: VPollApply carries
+   the notifications). *)
+Theorem C12_notify_idempotent : forall (s : store V) n, notify n (notify n s) = notify n s.
+Proof. exact (@notify_idem V). Qed.
+
+Theorem C12_notify_spec : forall (s : store V) n,
+  m (notify n s) = m s /\ hs (notify n s) = hs s /\ length (ws (notify n s)) = length (ws s) /\
+  forall i w, nth_error (ws s) i = Some w ->
+    nth_error (ws (notify n s)) i = Some (if neqb (wname w) n then W (wname w) true else w).
+Proof. exact (@notify_spec V). Qed.
+
+(* level trigger: after ANY positive number of undrained notifications one take finds the flag
+   set and the next finds it clear *)
+Theorem C12_notify_then_take : forall (s : store V) n i w k, nth_error (ws s) i = Some w -> wname w = n ->
+  let s1 := Nat.iter (S k) (notify n) s in
+  snd (ready_take s1 i) = true /\ snd (ready_take (fst (ready_take s1 i)) i) = false.
+Proof. exact (@notify_then_take V). Qed.
+
 End C12.
 
 Print Assumptions C12_start.
@@ -81,6 +103,9 @@ Print Assumptions C12_read_one_step.
 Print Assumptions C12_reads.
 Print Assumptions C12_apply_is_store_apply.
 Print Assumptions C12_monitor_sound.
+Print Assumptions C12_notify_idempotent.
+Print Assumptions C12_notify_spec.
+Print Assumptions C12_notify_then_take.
 
 (* ---- non-vacuity *)
 Local Open Scope N_scope.
@@ -126,3 +151,9 @@ Example x_rollback_stale : reads_ok N.eqb x_inst2 [RD 0 xa 11 2; RD 0 xa 11 4] =
 (* back and forth once more than the installs allow *)
 Example x_rollback_too_many : reads_ok N.eqb x_inst2 [RD 0 xa 10 0; RD 0 xa 11 0; RD 0 xa 10 0; RD 0 xa 11 0] = false. Proof. reflexivity. Qed.
 Example x_assign : assign N.eqb x_inst2 [RD 0 xa 10 1; RD 0 xa 11 2; RD 0 xa 10 4; RD 1 xa 10 0] = [0; 1; 3; 0]%nat. Proof. reflexivity. Qed.
+
+(* the watcher run: two undrained notifications, then a take that finds the flag, then one that does not *)
+Example x_watch_ok : watch_ok N xa [WN; WN; WN; WT true; WT false; WN; WT true] = true. Proof. reflexivity. Qed.
+Example x_watch_queued : watch_ok N xa [WN; WN; WT true; WT true] = false. Proof. reflexivity. Qed.     (* notifications queued *)
+Example x_watch_dropped : watch_ok N xa [WN; WT false] = false. Proof. reflexivity. Qed.                 (* notification lost *)
+Example x_watch_spurious : watch_ok N xa [WT true] = false. Proof. reflexivity. Qed.
